@@ -317,3 +317,30 @@ fn classify(p: Box<dyn Any + Send>) -> Caught {
         Caught::Panic(last_panic())
     }
 }
+
+/// The 8-byte words of `*t` itself (the struct, not what it points to), for the raw-word state identity.
+/// Trailing bytes that do not fill a word are ignored.  Reading padding bytes this way is outside the
+/// language's guarantees; the engine therefore keeps only words that proved stable across independent
+/// replays and bounds the number of raw variants per canonical state (engine.rs, `raw_calibrate`).
+pub fn raw_words_of<T>(t: &T, out: &mut Vec<u64>) {
+    let n = std::mem::size_of::<T>() / 8;
+    if std::mem::align_of::<T>() < 8 {
+        return;
+    }
+    let p = t as *const T as *const u64;
+    for i in 0..n {
+        out.push(unsafe { std::ptr::read_volatile(p.add(i)) });
+    }
+}
+
+/// Overwrite the part of the stack the next calls are going to use with zeros.  Padding bytes of a freshly
+/// constructed collection struct are whatever the stack held before; scrubbing makes them (nearly always)
+/// zero, which keeps the raw-word state identity from splitting one state into several by accident.
+#[inline(never)]
+pub fn scrub_stack() {
+    let mut a = [0u64; 2048];
+    for x in a.iter_mut() {
+        unsafe { std::ptr::write_volatile(x, 0) };
+    }
+    std::hint::black_box(&mut a);
+}
